@@ -470,10 +470,13 @@ def c14_run(prop, tier, seed):
         procs = []
         for w_ in range(nproc):
             env = dict(os.environ, PUML_FUZZ_STATS=os.path.join(fz_dir, 'stats_%d.json' % w_), PUML_FUZZ_SAMPLE=os.path.join(fz_dir, 'sample_%d.txt' % w_))
-            procs.append(subprocess.Popen([fz_bin, '-seed=%d' % (seed * 100 + w_ + 1), '-runs=%d' % (runs // nproc), '-max_len=512', '-artifact_prefix=' + art + '/C14_pumltok_',
-                                           '-print_final_stats=0', corpus], env=env, stdout=subprocess.PIPE, stderr=subprocess.STDOUT, text=True))
-        for w_, p in enumerate(procs):
-            out, _ = p.communicate()
+            # output goes to a file: with pipes only the process being waited for is drained and the others stall on a full pipe
+            outf = os.path.join(fz_dir, 'out_%d_%s_%d.log' % (seed, tier, w_))
+            procs.append((subprocess.Popen([fz_bin, '-seed=%d' % (seed * 100 + w_ + 1), '-runs=%d' % (runs // nproc), '-max_len=512', '-artifact_prefix=' + art + '/C14_pumltok_',
+                                            '-print_final_stats=0', corpus], env=env, stdout=open(outf, 'w'), stderr=subprocess.STDOUT), outf))
+        for w_, (p, outf) in enumerate(procs):
+            p.wait()
+            out = open(outf, errors='replace').read()[-200000:]
             st_file = os.path.join(fz_dir, 'stats_%d.json' % w_)
             if os.path.exists(st_file):
                 try:
@@ -642,13 +645,15 @@ def c20_run(prop, tier, seed):
             env = dict(os.environ)
             env[statvar] = stf
             n = (runs['poly'] if name == 'poly' else qruns) // nproc
+            outf = os.path.join(fz_dir, 'out_%s_%d_%s_%d.log' % (name, seed, tier, w_))      # (a file, not a pipe: see c14_run)
             p = subprocess.Popen([binp, '-seed=%d' % (seed * 1000 + w_ + 1), '-runs=%d' % n, '-max_len=256', '-print_final_stats=0',
-                                  '-artifact_prefix=%s/C20_%s_' % (art, name), corpus], env=env, stdout=subprocess.PIPE, stderr=subprocess.STDOUT, text=True)
-            procs.append((name, w_, p, stf, corpus))
+                                  '-artifact_prefix=%s/C20_%s_' % (art, name), corpus], env=env, stdout=open(outf, 'w'), stderr=subprocess.STDOUT)
+            procs.append((name, w_, p, stf, corpus, outf))
     per_target = {}
     violations = 0
-    for name, w_, p, stf, corpus in procs:
-        out, _ = p.communicate()
+    for name, w_, p, stf, corpus, outf in procs:
+        p.wait()
+        out = open(outf, errors='replace').read()[-200000:]
         shutil.rmtree(corpus, ignore_errors=True)
         st_ = {}
         if os.path.exists(stf):
